@@ -2,6 +2,7 @@
 
 from __future__ import annotations
 
+from contextlib import contextmanager
 from dataclasses import dataclass, field
 from typing import TYPE_CHECKING, Literal, overload
 
@@ -96,27 +97,47 @@ class Simulation:
             include_surrogates=True,
         )
 
+    @contextmanager
+    def _segment_parameters(self) -> Iterator[None]:
+        """Evaluate the model under the segments' parameter values, then hand it back.
+
+        The model is shared with the simulator. Values it was given after the last
+        segment (an update that has not been simulated yet) must survive a look at
+        the results.
+        """
+        names = {k for p in self.raw_parameters for k in p}
+        current = {
+            k: v.value
+            for k, v in self.model.get_raw_parameters().items()
+            if k in names
+        }
+        try:
+            yield
+        finally:
+            self.model.update_parameters(current)
+
     def _compute_args(self) -> list[pd.DataFrame]:
         # Already computed
         if len(self.raw_args) > 0:
             return self.raw_args
 
         # Compute new otherwise
-        for res, p in zip(self.raw_variables, self.raw_parameters, strict=True):
-            self.model.update_parameters(p)
-            self.raw_args.append(
-                self.model.get_args_time_course(
-                    variables=res,
-                    include_variables=True,
-                    include_parameters=True,
-                    include_derived_parameters=True,
-                    include_derived_variables=True,
-                    include_reactions=True,
-                    include_surrogate_variables=True,
-                    include_surrogate_fluxes=True,
-                    include_readouts=True,
+        with self._segment_parameters():
+            for res, p in zip(self.raw_variables, self.raw_parameters, strict=True):
+                self.model.update_parameters(p)
+                self.raw_args.append(
+                    self.model.get_args_time_course(
+                        variables=res,
+                        include_variables=True,
+                        include_parameters=True,
+                        include_derived_parameters=True,
+                        include_derived_variables=True,
+                        include_reactions=True,
+                        include_surrogate_variables=True,
+                        include_surrogate_fluxes=True,
+                        include_readouts=True,
+                    )
                 )
-            )
         return self.raw_args
 
     def _select_data(
@@ -423,13 +444,15 @@ class Simulation:
     ) -> pd.DataFrame | list[pd.DataFrame]:
         """Get right hand side over time."""
         args_by_simulation = self._compute_args()
-        return self._adjust_data(
-            [
+        with self._segment_parameters():
+            rhs = [
                 self.model.update_parameters(p).get_right_hand_side_time_course(
                     args=args
                 )
                 for args, p in zip(args_by_simulation, self.raw_parameters, strict=True)
-            ],
+            ]
+        return self._adjust_data(
+            rhs,
             normalise=normalise,
             concatenated=concatenated,
         )
@@ -473,27 +496,29 @@ class Simulation:
         concatenated: bool = True,
     ) -> pd.DataFrame | list[pd.DataFrame]:
         """Get fluxes of variable with positive stoichiometry."""
-        self.model.update_parameters(self.raw_parameters[0])
-        names = [
-            k
-            for k, v in self.model.get_stoichiometries_of_variable(variable).items()
-            if v > 0
-        ]
+        with self._segment_parameters():
+            self.model.update_parameters(self.raw_parameters[0])
+            names = [
+                k
+                for k, v in self.model.get_stoichiometries_of_variable(
+                    variable
+                ).items()
+                if v > 0
+            ]
 
-        fluxes: list[pd.DataFrame] = [
-            i.loc[:, names]
-            for i in self.get_fluxes(normalise=normalise, concatenated=False)
-        ]
+            fluxes: list[pd.DataFrame] = [
+                i.loc[:, names]
+                for i in self.get_fluxes(normalise=normalise, concatenated=False)
+            ]
 
-        if scaled:
-            fluxes = [i.copy() for i in fluxes]
-            for v, p in zip(fluxes, self.raw_parameters, strict=True):
-                self.model.update_parameters(p)
-                stoichs = self.model.get_stoichiometries_of_variable(variable)
-                for k in names:
-                    v.loc[:, k] *= stoichs[k]
+            if scaled:
+                fluxes = [i.copy() for i in fluxes]
+                for v, p in zip(fluxes, self.raw_parameters, strict=True):
+                    self.model.update_parameters(p)
+                    stoichs = self.model.get_stoichiometries_of_variable(variable)
+                    for k in names:
+                        v.loc[:, k] *= stoichs[k]
 
-        self.model.update_parameters(self.raw_parameters[-1])
         if concatenated:
             return pd.concat(fluxes, axis=0)
         return fluxes
@@ -537,27 +562,29 @@ class Simulation:
         concatenated: bool = True,
     ) -> pd.DataFrame | list[pd.DataFrame]:
         """Get fluxes of variable with negative stoichiometry."""
-        self.model.update_parameters(self.raw_parameters[0])
-        names = [
-            k
-            for k, v in self.model.get_stoichiometries_of_variable(variable).items()
-            if v < 0
-        ]
+        with self._segment_parameters():
+            self.model.update_parameters(self.raw_parameters[0])
+            names = [
+                k
+                for k, v in self.model.get_stoichiometries_of_variable(
+                    variable
+                ).items()
+                if v < 0
+            ]
 
-        fluxes: list[pd.DataFrame] = [
-            i.loc[:, names]
-            for i in self.get_fluxes(normalise=normalise, concatenated=False)
-        ]
+            fluxes: list[pd.DataFrame] = [
+                i.loc[:, names]
+                for i in self.get_fluxes(normalise=normalise, concatenated=False)
+            ]
 
-        if scaled:
-            fluxes = [i.copy() for i in fluxes]
-            for v, p in zip(fluxes, self.raw_parameters, strict=True):
-                self.model.update_parameters(p)
-                stoichs = self.model.get_stoichiometries_of_variable(variable)
-                for k in names:
-                    v.loc[:, k] *= -stoichs[k]
+            if scaled:
+                fluxes = [i.copy() for i in fluxes]
+                for v, p in zip(fluxes, self.raw_parameters, strict=True):
+                    self.model.update_parameters(p)
+                    stoichs = self.model.get_stoichiometries_of_variable(variable)
+                    for k in names:
+                        v.loc[:, k] *= -stoichs[k]
 
-        self.model.update_parameters(self.raw_parameters[-1])
         if concatenated:
             return pd.concat(fluxes, axis=0)
         return fluxes
